@@ -5,7 +5,7 @@ Online trace monitor over the simulated wb_bus plus the whole memory image (simu
 access), against a reference memory model. All bus inputs are random on every cycle.
 """
 from vmon import env  # noqa: F401
-from vmon.simkit import Top, Mon, simulate, bits
+from vmon.simkit import Top, Mon, simulate, bits, biased_bits
 
 from amaranth_soc.wishbone.sram import WishboneSRAM
 
@@ -36,7 +36,7 @@ def gen_case(rng, tier, idx):
     return {
         "size": size, "data_width": dw, "granularity": gran,
         "writable": rng.random() < 0.75, "init": init,
-        "cycles": 300 if tier == "quick" else 900,
+        "cycles": (300 if tier == "quick" else 900) * (8 if rng.random() < 0.04 else 1),
         "style": rng.choice(["raw", "raw", "sticky", "b2b"]),
     }
 
@@ -79,7 +79,7 @@ def run_case(case):
                     "adr": rng.randrange(depth) if rng.random() < 0.5 or not written
                     else rng.choice(sorted(written)),
                     "sel": rng.choice([bits(rng, nsel), (1 << nsel) - 1, 0, 1 << rng.randrange(nsel)]),
-                    "dat_w": bits(rng, dw),
+                    "dat_w": biased_bits(rng, dw),
                 }
                 if style == "b2b":
                     inp["cyc"] = inp["stb"] = int(rng.random() < 0.95)
